@@ -7,6 +7,12 @@ correspond exhaustive grid (precision -12..12 x coordinate magnitude class x pos
            code must equal ErrorModel's (exception / error code / empty / input returned / result bit-identical to
            descale(entry64(model's scaled arguments))) and must satisfy the property.
 
+success    harness/cx_success.cpp: the first sentence of the property ("Execute returns true (the C export returns 0) for every set of
+           paths and every clip type and fill rule", inputs as in C10: degenerate, touching, coincident, open paths) on small lattices:
+           a seeded random stream (closed + open paths on 4x4..10x10 lattices, every clip type x fill rule, Clipper64 and ClipperD, Paths and
+           PolyTree overloads, BooleanOp64/D(+_PolyTree) exports) and every open polyline of 3/4 lattice points against four clip shapes;
+           any false / non-zero return is minimised and reported with the input as replay; NoClip must give empty solutions.
+
 How a cell is judged ("reported", from the property text):
   * exceptions build: a Clipper2Exception carrying the code of one of the cell's invalidities is thrown;
   * -fno-exceptions build: the result is empty AND, where the entry point has an error-code channel at all (ScalePath/ScalePaths'
@@ -28,7 +34,7 @@ META = dict(
     note='Coq ErrorModel mirrors the order of checks of every PathsD wrapper and export prologue with exceptions on/off; the grid ties '
          'the real outcomes (both builds) to the model cell by cell and judges each cell against the property; silent acceptances are '
          'proved as _refuted theorems with the witnesses that are replayed here.',
-    technique='Coq model + theorems (case analysis/lia, vm_compute witnesses) + exhaustive-grid differential in two build configurations',
+    technique='Coq model + theorems (case analysis/lia, vm_compute witnesses) + exhaustive-grid differential in two build configurations + small-lattice success stream (random and exhaustive) over every Execute overload and BooleanOp export',
     category='proof')
 
 FAM = dict(S.FAMILY)
@@ -657,6 +663,136 @@ def judge_export(ctx, exc, c, H, M, o, I, expk):
         ctx.count('cells_agreeing_and_satisfying')
 
 
+# ----------------------------------------------------------------------------- success clause on small lattices
+API_NAMES = {1: 'Clipper64::Execute(Paths64,open)', 2: 'Clipper64::Execute(PolyTree64,open)', 4: 'ClipperD::Execute(PathsD,open)',
+             8: 'ClipperD::Execute(PolyTreeD,open)', 16: 'BooleanOp64', 32: 'BooleanOp_PolyTree64', 64: 'BooleanOpD', 128: 'BooleanOp_PolyTreeD',
+             256: 'NoClip solution not empty', 512: 'overloads disagree about success'}
+ALL_APIS = 255
+
+
+def succ_parse_case(tok):
+    """'<ct> <fr> <S> <O> <C>' tokens -> (ct, fr, [S, O, C]) with integer paths"""
+    ct, fr = int(tok[0]), int(tok[1])
+    pos = 2
+    sets = []
+    for _ in range(3):
+        ps, pos = S.take_paths(tok, pos)
+        sets.append(ps)
+    return ct, fr, sets
+
+
+def succ_line(ct, fr, sets, apis=ALL_APIS):
+    return 'CASE %d %d %d %s' % (apis, ct, fr, ' '.join(S.put_paths(x) for x in sets))
+
+
+def succ_mask(exe, ct, fr, sets):
+    out = vf.run_lines(exe, [succ_line(ct, fr, sets)], timeout=60).stdout.split()
+    return int(out[1]) if len(out) >= 2 and out[0] == 'C' else -1
+
+
+def succ_minimise(exe, ct, fr, sets, mask):
+    """greedy: drop whole paths, then single vertices, while the same kind of failure (a bit of `mask`) persists"""
+    def bad(ss):
+        m = succ_mask(exe, ct, fr, ss)
+        return m > 0 and (m & mask)
+    changed = True
+    while changed:
+        changed = False
+        for k in range(3):
+            for i in range(len(sets[k])):
+                cand = [list(x) for x in sets]
+                cand[k] = cand[k][:i] + cand[k][i + 1:]
+                if bad(cand):
+                    sets, changed = cand, True
+                    break
+            if changed:
+                break
+        if changed:
+            continue
+        for k in range(3):
+            for i in range(len(sets[k])):
+                for j in range(len(sets[k][i])):
+                    if len(sets[k][i]) <= 2:
+                        continue
+                    cand = [[list(p) for p in x] for x in sets]
+                    del cand[k][i][j]
+                    if bad(cand):
+                        sets, changed = cand, True
+                        break
+                if changed:
+                    break
+            if changed:
+                break
+    return sets
+
+
+def succ_report(ctx, exe, mask, ct, fr, sets, where):
+    if exe is not None and mask > 0:
+        try:
+            sets = succ_minimise(exe, ct, fr, sets, mask)
+            mask = succ_mask(exe, ct, fr, sets) or mask
+        except Exception:
+            pass
+    names = [API_NAMES[b] for b in sorted(API_NAMES) if mask & b]
+    line = '%d %d %s' % (ct, fr, ' '.join(S.put_paths(x) for x in sets))
+    rp = dict(succ=line, mask=mask, build='exceptions', where=where)
+    if mask & 255:
+        key = 'success.execute-false.%s' % ('with-open-paths' if sets[1] else 'closed-only')
+        viol(ctx, key, 'Execute returned false / the export returned non-zero (%s) on clip type %d, fill rule %d, subjects %s, open subjects %s, clips %s'
+                  % (', '.join(names), ct, fr, S.put_paths(sets[0]), S.put_paths(sets[1]), S.put_paths(sets[2])), replay=rp)
+    elif mask & 256:
+        viol(ctx, 'noclip.nonempty', 'ClipType::NoClip returned a non-empty solution on %s' % line, replay=rp)
+    elif mask & 512:
+        viol(ctx, 'success.overloads-disagree', 'the overloads disagree about success on %s' % line, replay=rp)
+    else:
+        viol(ctx, 'success.harness', 'cx_success could not run the case %s' % line, replay=rp, nofail=True)
+
+
+def run_success(ctx, more=False):
+    """success clause, "all inputs as in C10": closed and open paths on 4x4..10x10 lattices (vertices constantly on edges and
+    vertices of the other paths), all clip types x fill rules, Clipper64 / ClipperD, Paths and PolyTree overloads, the four
+    BooleanOp exports; plus every open polyline of 3 and 4 lattice points against four fixed clip shapes"""
+    try:
+        exe = vf.build_cpp(ctx, 'cx_success.cpp', 'plain')
+    except vf.BuildFailure as e:
+        viol(ctx, 'tie-break:harness-build-success', 'cx_success no longer builds: %s' % str(e)[-400:], replay=None, nofail=True)
+        return
+    r = ctx.rng.fork(11)
+    scale = (1 if ctx.quick else 10) * (3 if more else 1)
+    nlines, per = 64 * scale, 30000
+    lines = ['GEN %d %d %d' % (r.next(), per, ALL_APIS) for _ in range(nlines)]
+    nsh = 64
+    for g in ((4, 5) if ctx.quick else (4, 5, 6)):
+        lines += ['EXH %d %d %d' % (g, k, nsh) for k in range(nsh)]
+    out, fails = vf.par_lines(exe, lines, timeout=1700, chunk=1)
+    for shard, rc, err, got in fails:
+        # a crash inside the library on one of these tiny inputs: report the generator line (deterministic) as the replay
+        viol(ctx, 'success.crash', 'cx_success died (rc=%s) on %s: %s' % (rc, shard[0], (err or '')[-200:]), replay=dict(succgen=shard[0], build='exceptions'))
+    reported = 0
+    for l, o in zip(lines, out):
+        t = (o or '').split()
+        if not t or t[0] not in ('G', 'E'):
+            continue
+        if t[0] == 'G':
+            n, nonempty, withopen, touch, nfail = (int(x) for x in t[1:6])
+            ctx.count('success_cases_random', n); ctx.count('success_cases_with_open_paths', withopen)
+            ctx.count('success_cases_open_vertex_on_closed_edge', touch)
+            rest = t[6:]
+        else:
+            n, nonempty, nfail = (int(x) for x in t[1:4])
+            ctx.count('success_cases_exhaustive', n)
+            rest = t[4:]
+        ctx.count('evaluations', n); ctx.count('success_cases_nonempty_result', nonempty)
+        ctx.count('cells_agreeing_and_satisfying', n - nfail)
+        if nfail:
+            ctx.count('success_failures', nfail)
+            if reported < 3 and rest and rest[0] == '|':
+                reported += 1
+                ct, fr, sets = succ_parse_case(rest[2:])
+                succ_report(ctx, exe, int(rest[1]), ct, fr, sets, l)
+    ctx.hist('success_stream', 'lines=%d' % len(lines))
+
+
 # ----------------------------------------------------------------------------- driver
 def run_build(ctx, variant, oracle, search=False):
     exc = variant == 'plain'
@@ -690,6 +826,7 @@ def run(ctx):
             run_build(ctx, variant, oracle, search=not pr['ok'])
         except vf.BuildFailure as e:
             viol(ctx, 'tie-break:harness-build-%s' % variant, 'harness no longer builds [%s]: %s' % (variant, str(e)[-400:]), replay=None, nofail=True)
+    run_success(ctx, more=not pr['ok'])
     # (no corpus: the grid is exhaustive and deterministic -- the witnesses of the _refuted theorems and every formerly failing
     #  input are cells of it and are re-run every time)
     ctx.cov['distinct_nontrivial'] = ctx.cov.get('cells_agreeing_and_satisfying', 0)
@@ -697,14 +834,17 @@ def run(ctx):
                        'x planted position {subject x, subject y, clip x, rectangle} x sign x 17 PathsD entry points (+ delta=0, empty rectangle/paths, '
                        'NoClip variants); ScalePath/ScalePaths/PolyPathD with scale {0,-0,1,5e-324,1e-300,1e300,DBL_MAX}; CheckPrecisionRange -40..40 and '
                        'INT extremes; MakePath 0..7 values; 10 export functions with clip type/fill rule {0..6,200,255}; each in an exceptions and a '
-                       '-fno-exceptions build. non-trivial = cell where code == ErrorModel and the property is satisfied')
+                       '-fno-exceptions build. success clause: seeded random closed+open paths on 4x4..10x10 lattices (0-2 closed subjects, 0-2 open subjects of 2-5 '
+                       'points, 0-2 clips, 40% axis rectangles, all 5 clip types x 4 fill rules) through Clipper64/ClipperD x Paths/PolyTree overloads and the '
+                       'four BooleanOp exports, plus every open polyline of 3 and 4 points on the 5x5 and 6x6 lattice against 4 clip shapes x 4 clip types. '
+                       'non-trivial = cell where code == ErrorModel and the property is satisfied / success case where every API reported success')
     ctx.assumptions += [
         '"integer range" = +-MAX_COORD (INT64_MAX>>2) as tested by ScalePaths; exactly 2^61 (MAX_COORD+1, accepted by the double comparison) is tied to the model but not judged',
         'for entry points without an error-code channel (free functions returning PathsD/PathD, MakePath, PolyPathD::AddChild) "reported" in a -fno-exceptions build means an empty result; where a channel exists (int& error_code, ClipperD::ErrorCode()) the bit must be set AND the result be empty',
         'an empty rectangle / empty path set with an invalid precision is not judged: the empty answer is independent of the precision (C11_rectclip_empty_input); the cell is only tied to the model',
         'a NaN coordinate counts as a coordinate that leaves the integer range (DESIGN grid: magnitude class NaN)',
         'out-of-int64 conversions (UB) are executed on x86-64 only to observe that nothing is reported; their numeric results are not compared',
-        'success clause: Execute/export return values asserted on every run made here; the all-inputs argument is C01/C10\'s sweep model']
+        'success clause: Execute/export return values asserted on every run made here and on the small-lattice stream (degenerate, touching, coincident inputs, open paths); the all-inputs argument is C01/C10\'s sweep model']
     if not pr['ok'] and not [v for v in ctx.violations if not v['nofail']]:
         viol(ctx, 'proof-break:Properties_C11', 'Properties_C11.vo no longer builds: %s' % (pr['failed'][:1],), replay=dict(log=pr['log'][-1500:]), nofail=True)
 
@@ -712,6 +852,27 @@ def run(ctx):
 def replay(ctx, path):
     d = json.load(open(path))
     rp = d.get('replay') or {}
+    if 'succ' in rp or 'succgen' in rp:
+        exe = vf.build_cpp(ctx, 'cx_success.cpp', 'plain')
+        if 'succgen' in rp:
+            o = vf.run_lines(exe, [rp['succgen']], timeout=1700)
+            t = o.stdout.split()
+            ctx.log('code  : ' + o.stdout.strip()[:400])
+            if o.returncode != 0 or not t:
+                viol(ctx, 'success.crash', 'cx_success died on %s' % rp['succgen'], replay=rp)
+            elif '|' in t:
+                k = t.index('|')
+                ct, fr, sets = succ_parse_case(t[k + 2:])
+                succ_report(ctx, exe, int(t[k + 1]), ct, fr, sets, rp['succgen'])
+            return
+        ct, fr, sets = succ_parse_case(rp['succ'].split())
+        m = succ_mask(exe, ct, fr, sets)
+        ctx.log('case  : ' + rp['succ'][:400])
+        ctx.log('code  : fail mask %d (%s)' % (m, ', '.join(API_NAMES[b] for b in sorted(API_NAMES) if m > 0 and m & b) or 'every API succeeded'))
+        ctx.count('evaluations')
+        if m != 0:
+            succ_report(ctx, None, m, ct, fr, sets, 'replay')
+        return
     variant = 'plain' if rp.get('build', 'exceptions') == 'exceptions' else 'noexc'
     exc = variant == 'plain'
     oracle = vf.oracle_build('scale')
